@@ -175,6 +175,24 @@ def run_kernel_item(item):
                 if rr.status == 'sat':
                     reach = True
                     out['reach_model'] = rr.model
+                    # engine-vs-native validation point: the observations of this path under the model
+                    try:
+                        subs = [(t, z3.BitVecVal(rr.model.get(t.decl().name(), 0), t.size())) for (_, t, _) in lf.nondet]
+                        exp = []
+                        for (tag, v) in lf.obs:
+                            if isinstance(v, (int, bytes)):
+                                exp.append((tag, v if isinstance(v, int) else v.decode('latin1')))
+                            elif isinstance(v, tuple):
+                                continue
+                            else:
+                                g = z3.simplify(z3.substitute(v, *subs)) if subs else z3.simplify(v)
+                                if z3.is_bv_value(g):
+                                    exp.append((tag, g.as_long()))
+                                elif z3.is_true(g) or z3.is_false(g):
+                                    exp.append((tag, 1 if z3.is_true(g) else 0))
+                        out['validate'] = {'nondet': [(n, rr.model.get(t.decl().name(), 0), b) for (n, t, b) in lf.nondet], 'obs': exp}
+                    except Exception:  # noqa
+                        pass
         out['reach_ok'] = reach
         # phase 1 (here): in-process z3 with a short timeout; undecided obligations are written out as
         # SMT-LIB2 files and discharged by the external portfolio in the parent (phase 2, all cores)
@@ -336,6 +354,7 @@ class KernelCheck(object):
             if not r['reach_ok']:
                 self.inconclusive.append('%s: reachability twin failed (no feasible path reaches the end '
                                          'of the harness)' % r['name'])
+            self._validate_against_native(r)
             for d in r['defects']:
                 self._judge_defect(r, d)
             for o in r['obligations']:
@@ -346,6 +365,47 @@ class KernelCheck(object):
                 else:
                     self.inconclusive.append('%s: obligation %s %s -> %s %s' % (
                         r['name'], o['kind'], o['tag'], o['status'], o.get('detail', '')))
+
+    def _validate_against_native(self, r):
+        """One concrete point per work item: the engine's observations under a model of a complete path must equal what
+        the natively compiled harness prints for the same inputs (guards the IR translation / engine)."""
+        v = r.get('validate')
+        if not v or not v['obs']:
+            return
+        try:
+            rc, lines, err = self._replay(r['entry'], r['args'], v['nondet'], False, r.get('params'))
+        except Exception as e:  # noqa
+            self.inconclusive.append('%s: native validation run failed: %s' % (r['name'], e))
+            return
+        if rc != 0:
+            self.inconclusive.append('%s: native validation run exited with %s (engine path was ok): %s' % (r['name'], rc, lines[-2:]))
+            return
+        got = []
+        for ln in lines:
+            p = ln.split(' ')
+            if p[0] == 'OBS':
+                got.append((p[1], int(p[2]) & 0xffffffffffffffff))
+            elif p[0] == 'OBSS':
+                got.append((p[1], ln.split(' ', 2)[2] if len(p) > 2 else ''))
+        want = [(t, (x & 0xffffffffffffffff) if isinstance(x, int) else x) for (t, x) in v['obs']]
+        gi = 0
+        ok = True
+        for (t, x) in want:
+            while gi < len(got) and got[gi][0] != t:
+                gi += 1
+            if gi >= len(got) or got[gi][1] != x:
+                # widths below 64 bit: compare modulo the narrower of the two renderings
+                if gi < len(got) and isinstance(x, int) and isinstance(got[gi][1], int) and (got[gi][1] - x) % (1 << 8) == 0 and x < (1 << 8):
+                    gi += 1
+                    continue
+                ok = False
+                break
+            gi += 1
+        if ok:
+            self.validated = getattr(self, 'validated', 0) + 1
+        else:
+            self.inconclusive.append('%s: engine and native build disagree on a concrete point: inputs %s, engine %s, native %s' % (
+                r['name'], [(n, x) for (n, x, _) in v['nondet']], want[:6], got[:6]))
 
     def _replay(self, entry, args, nondet, sanitize, params=None):
         binp = self.native(sanitize)
